@@ -113,7 +113,7 @@ func tokenizeCapped(t tokenizers.ITokenizer, input string, hasNext int) ([]tk, *
 	limit := len([]rune(input)) + 2
 	var nonTerm bool
 	f := guard(func() {
-		t.SetReader(rio.NewStringScanner(input))
+		t.SetReader(newBudgetScanner(input))
 		for {
 			for i := 0; i < hasNext; i++ {
 				t.HasNextToken()
@@ -139,3 +139,34 @@ func tokenizeCapped(t tokenizers.ITokenizer, input string, hasNext int) ([]tk, *
 }
 
 func runesOf(parts []string) string { return strings.Join(parts, "") }
+
+// budgetScanner wraps the library's StringScanner and counts the calls made through the IScanner
+// interface. A terminating tokenizer makes a bounded number of scanner calls per character, so exceeding
+// 64*(len+4)+256 calls is non-termination inside one NextToken call — a sound, clock-free detector
+// for loops that the token-count cap cannot see. It panics with hangPanic, which guard() reports.
+type budgetScanner struct {
+	inner  *rio.StringScanner
+	budget int
+}
+
+type hangPanic struct{ input string }
+
+func newBudgetScanner(input string) *budgetScanner {
+	return &budgetScanner{inner: rio.NewStringScanner(input), budget: 64*(len([]rune(input))+4) + 256}
+}
+
+func (b *budgetScanner) tick() {
+	b.budget--
+	if b.budget < 0 {
+		panic(hangPanic{})
+	}
+}
+func (b *budgetScanner) Read() rune           { b.tick(); return b.inner.Read() }
+func (b *budgetScanner) Line() int            { return b.inner.Line() }
+func (b *budgetScanner) Column() int          { return b.inner.Column() }
+func (b *budgetScanner) Peek() rune           { b.tick(); return b.inner.Peek() }
+func (b *budgetScanner) PeekLine() int        { return b.inner.PeekLine() }
+func (b *budgetScanner) PeekColumn() int      { return b.inner.PeekColumn() }
+func (b *budgetScanner) Unread()              { b.tick(); b.inner.Unread() }
+func (b *budgetScanner) UnreadMany(count int) { b.tick(); b.inner.UnreadMany(count) }
+func (b *budgetScanner) Reset()               { b.inner.Reset() }
